@@ -742,9 +742,10 @@ func c12ReadRows(rr parquet.RowReader, batch int) (rows []parquet.Row, err error
 }
 
 type c12Out struct {
-	cols  [][]gen.Triple
-	nrows int
-	raw   []parquet.Row // row paths only
+	cols    [][]gen.Triple
+	nrows   int
+	raw     []parquet.Row     // row paths only
+	rawCols [][]parquet.Value // convert-rowgroup-chunks only: the values as served by the chunks
 }
 
 type c12Case struct {
@@ -932,6 +933,10 @@ var c12Paths = []c12Path{
 					}
 					out.cols[ci] = append(out.cols[ci], c12Canon(ctx, v, c.tleaves[ci]))
 				}
+				if out.rawCols == nil {
+					out.rawCols = make([][]parquet.Value, len(c.tleaves))
+				}
+				out.rawCols[ci] = append(out.rawCols[ci], vals...)
 			}
 		}
 		return out, nil
@@ -1101,7 +1106,13 @@ func RunC12(ctx *core.Ctx) {
 	wg.Add(2)
 	go func() { defer wg.Done(); c12RunShard(ctx, "typed", 0, ctx.Scale(20, 200)) }()
 	go func() { defer wg.Done(); c12RunShard(ctx, "sorted", 0, ctx.Scale(60, 1500)) }()
+	wg.Add(1)
+	go func() { defer wg.Done(); c12RunShard(ctx, "seek", 0, ctx.Scale(300, 6000)) }()
 	wg.Wait()
+}
+
+type c12Asker interface {
+	AskMany([]string) ([]string, error)
 }
 
 // what the worker is doing right now (written before every library call)
@@ -1227,7 +1238,7 @@ func c12Worker(args []string) int {
 	ctx.Prop, ctx.Seed, ctx.Tier, ctx.DriverPath = "C12", seed, args[5], args[6]
 	out, atPath := args[7], args[8]
 	var d *drv.Driver
-	if kind == "random" {
+	{
 		var err error
 		if d, err = drv.Start(ctx.DriverPath); err != nil {
 			ctx.Fail("L2", "driver-unavailable", "pqdriver cannot be started: "+err.Error(), nil)
@@ -1247,19 +1258,19 @@ func c12Worker(args []string) int {
 				}
 			}()
 			r := ctx.Rand(fmt.Sprintf("c12/%s/%d/%d", kind, shard, k))
+			var ask c12Asker
+			if d != nil {
+				ask = d
+			}
 			switch kind {
 			case "random":
-				var ask interface {
-					AskMany([]string) ([]string, error)
-				}
-				if d != nil {
-					ask = d
-				}
 				c12RandomCase(ctx, ask, &c12Gen{r: r}, shard == 0 && k < 3, at)
 			case "typed":
 				c12TypedCase(ctx, r, at)
 			case "sorted":
-				c12SortedCase(ctx, r, at)
+				c12SortedCase(ctx, ask, r, at)
+			case "seek":
+				c12SeekCase(ctx, ask, r, at)
 			}
 		}()
 		if d != nil {
@@ -1446,6 +1457,7 @@ func c12RandomCase(ctx *core.Ctx, d interface {
 	}
 
 	var convRows []parquet.Row
+	var chunkCols [][]parquet.Value
 	addedKey := "" // key of the added-column failure seen on the convert-rows path, if any
 	for _, p := range c12Paths {
 		at(p.name, tg.mode, detail(nil))
@@ -1467,6 +1479,9 @@ func c12RandomCase(ctx *core.Ctx, d interface {
 		}
 		if p.name == "convert-rows" && out != nil {
 			convRows = out.raw
+		}
+		if p.name == "convert-rowgroup-chunks" && out != nil && err == nil {
+			chunkCols = out.rawCols
 		}
 		want := exp
 		wantRows := nrows
@@ -1619,6 +1634,24 @@ func c12RandomCase(ctx *core.Ctx, d interface {
 				ctx.Fail("L2", "convert-row-vs-lean-mirror:"+tg.mode, "conversion.Convert and the Lean mirror convertRow disagree",
 					detail(map[string]any{"row": valTexts[i], "go": got, "lean": mirror}))
 			}
+		}
+	}
+	// L2: the column-chunk view of the converted row group vs the Lean mirror `chunkView`
+	if chunkCols != nil && tg.mode != "incompat" {
+		a, err := d.AskMany([]string{"convert.chunks " + srcText + " " + tgtText + " " + fmt.Sprint(nrows) + " " + strings.Join(valTexts, ";")})
+		if err != nil {
+			ctx.Fail("L2", "driver-error", err.Error(), nil)
+			return
+		}
+		parts := strings.Split(a[0], " | ")
+		if len(parts) != 3 || parts[0] != "ok" {
+			ctx.Fail("L2", "lean-rejects-case", "convert.chunks: "+a[0], detail(nil))
+			return
+		}
+		ctx.Hist("chunk-view-vs-row-view-in-model", map[bool]string{true: "equal", false: "different"}[parts[1] == parts[2]]+" ("+tg.mode+")")
+		if got := idText(chunkCols); got != parts[1] {
+			ctx.Fail("L2", "chunk-view-vs-lean-mirror:"+tg.mode, "ConvertRowGroup(...).ColumnChunks() and the Lean mirror chunkView disagree",
+				detail(map[string]any{"go": got, "lean": parts[1]}))
 		}
 	}
 }
@@ -1840,7 +1873,7 @@ func c12TypedCase(ctx *core.Ctx, r *rand.Rand, at func(path, mode string, detail
 //     merged row group declares.
 //
 // Sorting columns are required leaves so that null ordering (C09/C10) stays out of this check.
-func c12SortedCase(ctx *core.Ctx, r *rand.Rand, at func(path, mode string, detail any)) {
+func c12SortedCase(ctx *core.Ctx, d c12Asker, r *rand.Rand, at func(path, mode string, detail any)) {
 	nsort := 2 + r.Intn(2)
 	kinds := []int{1, 2, 5} // int32 int64 string
 	type scol struct {
@@ -2106,6 +2139,19 @@ func c12SortedCase(ctx *core.Ctx, r *rand.Rand, at func(path, mode string, detai
 				ctx.Observe("converted-rowgroup-declares-shorter-order", "a true but shorter order than the surviving prefix of the source's sorting columns is declared: ["+got+"]", det)
 			}
 			ctx.Hist("converted-declared-order-length", fmt.Sprint(len(decl)))
+			if d != nil {
+				// L2: the carry-over loop vs the Lean mirror `carrySorting`
+				var flags []string
+				for i := range sc {
+					flags = append(flags, map[bool]string{true: "0", false: "1"}[mask&(1<<i) != 0])
+				}
+				if a, err := d.AskMany([]string{"convert.sorting " + strings.Join(flags, ",")}); err != nil {
+					ctx.Fail("L2", "driver-error", err.Error(), nil)
+				} else if a[0] != fmt.Sprintf("ok %d", len(decl)) {
+					ctx.Fail("L2", "converted-sorting-vs-lean-mirror", fmt.Sprintf("ConvertRowGroup declares %d sorting columns [%s], the Lean mirror carrySorting says %s", len(decl), c12OrderText(decl), a[0]),
+						describe(tgt, map[string]any{"dropped_sorting_columns": dropped}))
+				}
+			}
 		}
 		if !okAll || len(converted) != 2 {
 			continue
@@ -2217,4 +2263,192 @@ func c12DropShape(mask, n int) string {
 		return "dropped-none"
 	}
 	return "dropped-" + strings.Join(pos, "+")
+}
+
+// ---------------------------------------------------------------- ConvertRowReader: batches and seeks
+
+// c12SliceReader hands out min(len(buf), rest) rows per call, io.EOF when nothing is left.
+type c12SliceReader struct {
+	rows   []parquet.Row
+	schema *parquet.Schema
+}
+
+func (r *c12SliceReader) ReadRows(buf []parquet.Row) (int, error) {
+	if len(r.rows) == 0 {
+		return 0, io.EOF
+	}
+	n := min(len(buf), len(r.rows))
+	for i := 0; i < n; i++ {
+		buf[i] = append(buf[i][:0], r.rows[i]...)
+	}
+	r.rows = r.rows[n:]
+	return n, nil
+}
+
+func (r *c12SliceReader) Schema() *parquet.Schema { return r.schema }
+
+// One case: rows 0..n-1 (column `id` = row number) read through ConvertRowReader with a target
+// that drops and permutes columns, by a random history of ReadRows(cap) and forward SeekToRow
+// calls. Oracle (the property): a read hands out the converted rows in order from the current
+// position, and after SeekToRow(k) the next row is row k; nothing lost or repeated otherwise.
+// L2: every call's outcome vs the Lean mirror of forwardRowSeeker.ReadRows.
+func c12SeekCase(ctx *core.Ctx, d c12Asker, r *rand.Rand, at func(path, mode string, detail any)) {
+	src := &c12Node{kind: -1, fields: []*c12Node{{name: "id", kind: 2}, {name: "p", kind: 5}, {name: "q", rep: 1, kind: 1}, {name: "w", rep: 2, kind: 2}}}
+	tgt := &c12Node{kind: -1, fields: []*c12Node{{name: "w", rep: 2, kind: 2}, {name: "id", kind: 2}}}
+	if r.Intn(2) == 0 {
+		tgt.fields = []*c12Node{{name: "q", rep: 1, kind: 1}, {name: "id", kind: 2}, {name: "p", kind: 5}}
+	}
+	n := []int{0, 1, 3, 8, 20, 40}[r.Intn(6)]
+	var rows []parquet.Row
+	for i := 0; i < n; i++ {
+		v := &c12Val{k: 'S', kids: []*c12Val{{k: 'P', p: parquet.ValueOf(int64(i))}, c12GenField(r, src.fields[1], 0.3, 2),
+			c12GenField(r, src.fields[2], 0.3, 2), c12GenField(r, src.fields[3], 0.3, 2)}}
+		rows = append(rows, c12RowOf(c12ShredRow(src, v)))
+	}
+	// history
+	var ops []string
+	pos := 0 // the row the property says comes next
+	kindOfHistory := "reads-only"
+	for k := 1 + r.Intn(6); k > 0; k-- {
+		if r.Intn(3) == 0 {
+			row := pos + r.Intn(12)
+			ops = append(ops, fmt.Sprintf("s%d", row))
+			pos = row
+			kindOfHistory = "with-seek"
+		} else {
+			c := []int{1, 2, 4, 7, 64}[r.Intn(5)]
+			ops = append(ops, fmt.Sprintf("r%d", c))
+			pos += c
+		}
+	}
+	det := map[string]any{"rows": n, "ops": ops, "target": tgt.text()}
+	ctx.Case(fmt.Sprint(n, ops, tgt.text()), kindOfHistory == "with-seek")
+	ctx.Hist("path", "convert-row-reader-history")
+	ctx.Hist("seek-history", kindOfHistory)
+	at("convert-row-reader-history", kindOfHistory, det)
+	srcS := parquet.NewSchema("src", src.build())
+	tgtS := parquet.NewSchema("tgt", tgt.build())
+	idCol := -1
+	for ci, lf := range tgt.leaves() {
+		if lf.path[0] == "id" {
+			idCol = ci
+		}
+	}
+	var outcomes []string
+	next := 0 // property oracle: the next row
+	var l1 string
+	seekPending, readBefore := false, false
+	_, err := c12Guard(func() (*c12Out, error) {
+		conv, err := parquet.Convert(tgtS, srcS)
+		if err != nil {
+			return nil, err
+		}
+		rr := parquet.ConvertRowReader(&c12SliceReader{rows: rows, schema: srcS}, conv)
+		for _, op := range ops {
+			arg, _ := strconv.Atoi(op[1:])
+			if op[0] == 's' {
+				if err := rr.(parquet.RowSeeker).SeekToRow(int64(arg)); err != nil {
+					outcomes = append(outcomes, "err")
+					continue
+				}
+				outcomes = append(outcomes, "ok")
+				next = arg
+				seekPending = true
+				continue
+			}
+			buf := make([]parquet.Row, arg)
+			var got []string
+			var nread int
+			var rerr error
+			func() {
+				defer func() {
+					if x := recover(); x != nil {
+						rerr = fmt.Errorf("PANIC: %v", x)
+					}
+				}()
+				nread, rerr = rr.ReadRows(buf)
+			}()
+			if rerr != nil && strings.HasPrefix(rerr.Error(), "PANIC") {
+				outcomes = append(outcomes, "panic")
+				if l1 == "" {
+					l1 = "forward-row-seeker:seek-inside-batch-panics"
+					if !seekPending {
+						l1 = "path-panic:convert-row-reader-history:" + kindOfHistory
+					}
+					det["failed_op"] = op
+					det["error"] = rerr.Error()
+				}
+				for len(outcomes) < len(ops) {
+					outcomes = append(outcomes, "dead")
+				}
+				return nil, nil
+			}
+			for _, row := range buf[:nread] {
+				id := "?"
+				for _, v := range row {
+					if v.Column() == idCol {
+						id = fmt.Sprint(v.Int64())
+					}
+				}
+				got = append(got, id)
+			}
+			if len(got) == 0 {
+				outcomes = append(outcomes, "-")
+			} else {
+				outcomes = append(outcomes, strings.Join(got, ","))
+			}
+			// the property: rows next, next+1, ... (as many as fit / remain)
+			var want []string
+			for i := next; i < n && len(want) < arg; i++ {
+				want = append(want, fmt.Sprint(i))
+			}
+			// a reader may hand out fewer rows than the buffer holds, but not none while rows remain
+			short := len(got) <= len(want) && strings.Join(got, ",") == strings.Join(want[:min(len(got), len(want))], ",") && (len(got) > 0 || len(want) == 0)
+			if short {
+				want = want[:len(got)]
+			}
+			if !short && l1 == "" {
+				l1 = "forward-row-seeker:wrong-rows-without-seek"
+				if seekPending || kindOfHistory == "with-seek" {
+					l1 = "forward-row-seeker:seek-lands-on-wrong-row"
+					if readBefore {
+						l1 = "forward-row-seeker:seek-after-read-skips-rows"
+					}
+				}
+				det["failed_op"] = op
+				det["expected_ids"] = want
+				det["got_ids"] = got
+			}
+			next += len(want)
+			if len(got) > 0 {
+				seekPending = false
+			}
+			readBefore = true
+			if rerr != nil && rerr != io.EOF {
+				return nil, rerr
+			}
+		}
+		return nil, nil
+	})
+	if err != nil {
+		k := "path-error:convert-row-reader-history:" + errClass(err)
+		if strings.HasPrefix(err.Error(), "PANIC") {
+			k = "path-panic:convert-row-reader-history:" + kindOfHistory
+		}
+		ctx.Fail("L1", k, err.Error(), det)
+		return
+	}
+	det["outcomes"] = outcomes
+	if l1 != "" {
+		ctx.Fail("L1", l1, "reading converted rows through ConvertRowReader with SeekToRow does not continue at the sought row", det)
+	}
+	if d != nil {
+		a, err := d.AskMany([]string{fmt.Sprintf("convert.fwd %d %s", n, strings.Join(ops, ";"))})
+		if err != nil {
+			ctx.Fail("L2", "driver-error", err.Error(), nil)
+		} else if want := "ok " + strings.Join(outcomes, ";"); a[0] != want {
+			ctx.Fail("L2", "forward-row-seeker-vs-lean-mirror", "forwardRowSeeker.ReadRows history and the Lean mirror Fwd.read disagree",
+				map[string]any{"rows": n, "ops": ops, "go": want, "lean": a[0]})
+		}
+	}
 }
